@@ -8,7 +8,7 @@ Op lines (strings are given as dot-separated hexadecimal code points, `-` = empt
 * `name <arg>`                          → `ok <lower> <underscore> <upper> <pascal> <keypair-file>` | `err`
 * `render <template> <name> <pubkey>`   → `ok <len> <hash>`   (name must be an accepted name, else `bad-op`)
 * `rendertpl <file> <name> <pubkey>`    → same, for a template of the generated table
-* `scaffold <arg> pre=<none|file|dir|symlink|dangling> fault=<none|cls:k:ERRNO>`
+* `scaffold <arg> pre=<none|file|dir|emptydir|symlink|symlinkdir|dangling> fault=<none|cls:k:ERRNO>`
                                         → `<ok|err|panic> <complete n=<entries> h=<listing hash>|clean|dirty>`
 
 Everything is computed by the definitions the theorems of `Cli.Props.C20` are about.
@@ -50,7 +50,7 @@ def parseFault (s : String) : Option Fault :=
     let err : Option Errno :=
       if e = "EEXIST" then some .eexist else if e = "ENOENT" then some .enoent
       else if okErrnos.contains e then some .other else none
-    match cls, k.toNat?, err with
+    match cls, (if !k.isEmpty && k.all Char.isDigit then k.toNat? else none), err with
     | some cls, some k, some err =>
       if k = 0 then none else some (fun c n => if c = cls ∧ n = k then some err else none)
     | _, _, _ => none
@@ -81,7 +81,8 @@ def scaffoldOp (arg : List Char) (pre : String) (flt : Fault) : String :=
     else if !validComponent t then none
     else if pre = "file" then some (upd base [t] (.file ['x']))
     else if pre = "dir" then some (upd (upd base [t] .dir) [t, keepName] (.file ['x']))
-    else if pre = "symlink" then some (upd base [t] (.symlink true))
+    else if pre = "emptydir" then some (upd base [t] .dir)
+    else if pre = "symlink" ∨ pre = "symlinkdir" then some (upd base [t] (.symlink true))
     else if pre = "dangling" then some (upd base [t] (.symlink false))
     else none
   match fs0? with
